@@ -108,8 +108,19 @@ pub fn child(a: &Args) {
                 let cw = match &pattern { Some(p) => Puncturer::new(p).puncture(&cw).map_err(|e| e.to_string())?, None => cw };
                 Ok::<_, String>(cw.iter().map(|x| if x.is_one() { 1u8 } else { 0u8 }).collect::<Vec<u8>>())
             });
-            let refv = match reference { Ok(Ok(r)) => r, _ => vec![] };
-            log(json!({"t": "pre", "op": "encode", "idx": idx, "ref": refv, "bits": bits, "handle": if which == handle { 1 } else { 2 }}));
+            let mut refv = match reference { Ok(Ok(r)) => r, _ => vec![] };
+            let nonbit = bits.iter().any(|&b| b > 1);
+            if nonbit {
+                // bytes other than 0/1: their meaning is the wrapper's business, but the answer may not depend on earlier calls on this
+                // handle ("repeated calls on one handle are independent"): the reference is a FRESH handle given the same buffer
+                log(json!({"t": "pre", "op": "fresh", "idx": idx}));
+                let fresh = unsafe { if via == "file" { ldpc_toolbox_encoder_ctor(ca.as_ptr(), cp.as_ptr()) } else { ldpc_toolbox_encoder_ctor_alist_string(ca.as_ptr(), cp.as_ptr()) } };
+                let mut fo = vec![7u8; refv.len()];
+                if !fresh.is_null() { unsafe { ldpc_toolbox_encoder_encode(fresh, fo.as_mut_ptr(), fo.len(), bits.as_ptr(), bits.len()); ldpc_toolbox_encoder_dtor(fresh); } }
+                log(json!({"t": "post", "op": "fresh", "idx": idx}));
+                refv = fo;
+            }
+            log(json!({"t": "pre", "op": "encode", "idx": idx, "ref": refv, "bits": bits, "nonbit": nonbit, "handle": if which == handle { 1 } else { 2 }}));
             let mut out = vec![7u8; refv.len()];
             unsafe { ldpc_toolbox_encoder_encode(which, out.as_mut_ptr(), out.len(), bits.as_ptr(), bits.len()) };
             log(json!({"t": "post", "op": "encode", "idx": idx, "out": out}));
@@ -143,6 +154,7 @@ fn run_scenario(out: &mut Out, sc: &Value, work: &str, idx: usize) {
         let post = lines.get(k + 1).filter(|p| p["t"] == "post" && p["op"] == pre["op"]);
         let op = pre["op"].as_str().unwrap_or("");
         if pre["t"] == "post" && op == "dtor" { k += 1; continue; }
+        if op == "fresh" && post.is_some() { k += 2; continue; }      // the fresh-handle reference call itself (an abort there is reported below)
         let mut ev = base.clone();
         for (kk, v) in pre.as_object().unwrap() { ev[kk] = v.clone(); }
         match post {
@@ -190,7 +202,11 @@ pub fn generate(a: &Args) {
         let pat = match pattern_of(pat) { Some(p) if ncw % p.len() != 0 => "", _ => pat };
         let path = format!("{work}/c19-enc-{i}.alist");
         if i % 2 == 0 { std::fs::write(&path, h.alist()).unwrap(); }
-        let ops: Vec<Value> = (0..5).map(|_| json!({"bits": (0..ncw - r).map(|_| (rng.next() & 1) as u8).collect::<Vec<_>>()})).collect();
+        let ops: Vec<Value> = (0..6).map(|t| json!({"bits": (0..ncw - r).map(|_| {
+            let b = (rng.next() & 1) as u8;
+            // from the third call on, some bytes are neither 0 nor 1 (after calls that left ones everywhere)
+            if t >= 2 && rng.coin(1, 4) { [2u8, 255, 3, 128][rng.below(4)] } else if t == 1 { 1 } else { b }
+        }).collect::<Vec<_>>()})).collect();
         scs.push(json!({"kind": "enc", "via": if i % 2 == 0 { "file" } else { "string" }, "alist": h.alist(), "name": "", "pat": pat, "path": path, "ops": ops, "why": "valid"}));
     }
     // constructor failures
